@@ -44,6 +44,8 @@ def fGro : Str := ['g','r','o','m','a','c','s']
 def fPoscar : Str := ['p','o','s','c','a','r']
 def fChgcar : Str := ['c','h','g','c','a','r']
 def fLocpot : Str := ['l','o','c','p','o','t']
+/-- the CHARMM CRD reader lives in the module `charmm` -/
+def fCrd : Str := ['c','h','a','r','m','m']
 def eLoadOne : Str := ['l','o','a','d','_','o','n','e']
 def eLoadMany : Str := ['l','o','a','d','_','m','a','n','y']
 
@@ -56,12 +58,14 @@ def cubeB : List Str := [kAtcoords, kAtnums, kAtcorenums, kCellvecs, kCube, kTit
 def groB : List Str := [kAtcoords, kAtffparams, kCellvecs, kExtra, kTitle]
 def poscarB : List Str := [kAtcoords, kAtnums, kCellvecs, kTitle]
 def vaspGridB : List Str := [kAtcoords, kAtnums, kCellvecs, kCube, kTitle]
+def crdB : List Str := [kAtcoords, kAtffparams, kAtmasses, kExtra, kTitle]
 
 /-- (format, keys of every returned object, keys of some returned objects only) of the reader models;
 `Props/C17Readers` proves each row about the model and compares the table with the one extracted from the source -/
 def modelKeys : List (Str × List Str × List Str) :=
   [(fXyz, xyzB, []), (fSdf, sdfB, []), (fMol2, mol2B, [kBonds]), (fPdb, pdbB, [kBonds]), (fCube, cubeB, []),
-   (fGro, groB, []), (fPoscar, poscarB, []), (fChgcar, vaspGridB, []), (fLocpot, vaspGridB, [])]
+   (fGro, groB, []), (fPoscar, poscarB, []), (fChgcar, vaspGridB, []), (fLocpot, vaspGridB, []),
+   (fCrd, crdB, [])]
 
 /-- same members -/
 def sameSet (a b : List Str) : Bool := a.all (b.contains ·) && b.all (a.contains ·)
@@ -104,7 +108,7 @@ theorem mem_keys_iff (o : RObj) (a : Str) : a ∈ o.keys ↔ hasKeyB o a = true 
   constructor
   · rintro ⟨p, ⟨hp, hpo⟩, rfl⟩
     simp only [accessors, List.mem_cons, List.not_mem_nil, or_false] at hp
-    rcases hp with rfl | rfl | rfl | rfl | rfl | rfl | rfl | rfl | rfl | rfl <;> exact hpo
+    rcases hp with rfl | rfl | rfl | rfl | rfl | rfl | rfl | rfl | rfl | rfl | rfl <;> exact hpo
   · intro h
     split at h
     · next f hf => exact ⟨(a, f), ⟨mem_of_lookup _ _ _ hf, h⟩, rfl⟩
@@ -287,6 +291,21 @@ theorem vasp_grid_form (T : Tables) (ls : List Str) (o : RObj) (h : (run (Vasp.l
   obtain ⟨ho, -⟩ := pure_ok hm
   exact ⟨hd.coordShape, g.1, hd.natom, hd.cellK, ho.symm⟩
 
+theorem crd_form (ls : List Str) (o : RObj) (h : (Crd.read ls).res = .ok o) :
+    ∃ n : Nat, o = { atcoords := some [n, 3], atmasses := some [n], atffparams := [n, n, n], extraAtom := [n, n], hasTitle := true, hasAtffparams := true, hasExtra := true } := by
+  unfold Crd.read run at h
+  rcases hm : Crd.loadOne ⟨ls, 0⟩ with ⟨r, l'⟩
+  rw [hm] at h
+  simp only at h
+  subst h
+  unfold Crd.loadOne Crd.helper at hm
+  obtain ⟨_, _, -, hm⟩ := bind_ok hm
+  obtain ⟨_, _, -, hm⟩ := bind_ok hm
+  obtain ⟨natom, _, -, hm⟩ := bind_ok hm
+  obtain ⟨_, _, -, hm⟩ := bind_ok hm
+  obtain ⟨_, _, -, hm⟩ := bind_ok hm
+  obtain ⟨ho, -⟩ := pure_ok hm
+  exact ⟨natom.toNat, ho.symm⟩
 
 /-! ### witness files (non-vacuity examples of `Props/C17Readers`) -/
 
@@ -397,5 +416,12 @@ def chgcarO : List Str :=
    [' ','0','.','7','8','E','+','0','4',' ','0','.','7','6','E','+','0','4',' ','0','.','6','9','E','+','0','4','\n'],
    [' ','0','.','5','7','E','+','0','4','\n'],
    ['a','u','g','m','e','n','t','a','t','i','o','n','\n']]
+
+def crdTwo : List Str :=
+  [['*',' ','t','w','o',' ','a','t','o','m','s','\n'],
+   ['*','\n'],
+   [' ',' ',' ',' ','2','\n'],
+   [' ','1',' ','1',' ','T','H','R',' ','N',' ','-','3','.','8','5',' ','-','7','.','0','4',' ','4','.','6','2',' ','M','A','I','N',' ','1',' ','1','4','.','0','0','7','\n'],
+   [' ','2',' ','1',' ','T','H','R',' ','H','T','1',' ','-','4','.','1','5',' ','-','6','.','5','6',' ','5','.','4','9',' ','M','A','I','N',' ','1',' ','1','.','0','0','8','\n']]
 
 end Iodata.Rd
